@@ -7,13 +7,39 @@
 use vstd::prelude::*;
 verus! {
 pub type Uid = [u8; 16];
-pub mod rusqlite { pub struct Error { x: u8 } }
-pub type Result<T> = std::result::Result<T, OtherError>;
-pub struct OtherError { x: u8 }
+pub mod rusqlite {
+    use vstd::prelude::*;
+    pub struct Error { x: u8 }
+    impl Error { #[verifier::external_body] pub fn to_string(&self) -> (r: String) { unimplemented!() } }
+}
+pub type Result<T> = std::result::Result<T, Error>;
+pub enum Error { DatabaseWrite(String), ComputeDailyLog(String), Other() }
+pub struct SendErr { x: u8 }
+/// oneshot reply channel of a write request
 pub struct Sender<T> { x: Option<T> }
-pub mod mpsc { pub struct Sender<T> { x: Option<T> } }
-pub struct AuthorisationMessage { x: u8 }
-pub struct DbMessage { x: u8 }
+impl<T> Sender<T> {
+    #[verifier::external_body]
+    pub fn send(self, t: T) -> (r: std::result::Result<(), SendErr>) { unimplemented!() }
+}
+pub mod mpsc {
+    use vstd::prelude::*;
+    pub struct Sender<T> { x: Option<T> }
+    impl<T> Sender<T> {
+        #[verifier::external_body]
+        pub fn blocking_send(&self, t: T) -> (r: std::result::Result<(), super::SendErr>) { unimplemented!() }
+    }
+    pub struct Receiver<T> { x: Option<T> }
+    impl<T> Receiver<T> {
+        #[verifier::external_body]
+        pub fn blocking_recv(&mut self) -> (r: Option<T>) { unimplemented!() }
+    }
+}
+pub enum AuthorisationMessage {
+    RoomMutationWrite(Result<()>, RoomMutationWriteQuery),
+    RoomMutationStreamWrite(Result<()>, RoomMutationStreamWriteQuery),
+    RoomNodeWrite(Result<()>, RoomNodeWriteQuery),
+}
+pub enum DbMessage { DailyLogComputed(Result<DailyLogsUpdate>) }
 
 /// SQLite connection: opaque; execute may fail at any time
 pub struct Connection { x: u8 }
@@ -121,6 +147,37 @@ pub struct Txn { pub open: bool, pub marks_written: bool, pub commits: nat, pub 
                         invariant txn.open && !txn.marks_written && txn.commits == 0 && txn.rollbacks == 0,
 //@ loop "for edge in edges" iter ite
                         invariant txn.open && !txn.marks_written && txn.commits == 0 && txn.rollbacks == 0,
+//@ end
+
+/// the verdict of the batch as the writer thread sees it
+pub open spec fn is_ok<T>(r: std::result::Result<T, rusqlite::Error>) -> bool { r is Ok }
+
+//@ extract src/database/sqlite_database.rs :: impl BufferedDatabaseWriter / fn start as BufferedDatabaseWriter::lifted_writer_thread
+//@ lift "thread::spawn(move || {" :: fn lifted_writer_thread(receive_buffer0: mpsc::Receiver<Vec<WriteMessage>>, conn: Connection, send_ready: mpsc::Sender<bool>)
+//@ attr #[verifier::exec_allows_no_decreases_clause]
+//@ attr #[verifier::loop_isolation(false)]
+//@ insert body-start
+            let mut receive_buffer = receive_buffer0;   // E9: captured variable of the thread closure
+//@ insert before-stmt "Self::process_batch_write("
+                let ghost mut attempts: nat = 0;
+//@ insert-each after-stmt "Self::process_batch_write("
+                proof { attempts = attempts + 1; }
+//@ insert before-stmt "match result {"
+                // [batch_processed_exactly_once] a batch is handed to the transaction code exactly once: replaying it after a rollback is not idempotent (row ids assigned by the first attempt stay in the requests)
+                assert(attempts == 1);
+                let ghost committed = is_ok(result);
+//@ insert-each before-stmt "r.send(Ok("
+                                    // [ack_ok_only_after_commit] success is acknowledged only when the batch's transaction committed
+                                    assert(committed);
+//@ insert-each before-stmt "r.blocking_send(Ok("
+                                    // [stream_ack_ok_only_after_commit]
+                                    assert(committed);
+//@ insert-each before-stmt "Ok(()),"
+                                    // [room_ack_ok_only_after_commit]
+                                    assert(committed);
+//@ insert-each before-stmt "DbMessage::DailyLogComputed(Ok(q))"
+                                    // [compute_ack_ok_only_after_commit]
+                                    assert(committed);
 //@ end
 } // verus!
 fn main() {}
